@@ -103,6 +103,23 @@ let jstr s = "\"" ^ String.escaped s ^ "\""
 let rec tree_size = function Bot -> 0 | Sol _ -> 1 | Dec (_, _, a, b) -> 1 + tree_size a + tree_size b
 let rec tree_arts = function Bot -> 0 | Sol (_, a, _) -> List.length a | Dec (_, a, x, y) -> List.length a + tree_arts x + tree_arts y
 
+(* does some artificial parameter of the tree depend (directly or through earlier artificial
+   parameters of its path) on the parameter at index bigi? *)
+let big_in_arts bigi dim tree =
+  let found = ref false in
+  let rec walk dep len t =      (* dep: indices (>= dim) of big-dependent artificial parameters *)
+    let scan aps =
+      List.fold_left (fun (dep, len) a ->
+          let d = ref false in
+          List.iteri (fun i c -> if not (is_zero c) && (i = bigi || List.mem i dep) then d := true) a.anum.lco;
+          if !d then (found := true; (len :: dep, len + 1)) else (dep, len + 1)) (dep, len) aps in
+    match t with
+    | Bot -> ()
+    | Sol (_, aps, _) -> ignore (scan aps)
+    | Dec (_, aps, t1, t2) -> let (dep', len') = scan aps in walk dep' len' t1; walk dep' len' t2 in
+  if bigi >= 0 then walk [] dim tree;
+  !found
+
 let judge_record line =
   toks := Array.of_list (List.filter (fun s -> s <> "") (String.split_on_char ' ' line)); pos := 0;
   malformed := [];
@@ -245,11 +262,11 @@ let judge_record line =
         ignore (Unix.alarm 20); r end
       else "not_tried" in
     let kinds = String.concat "," (Hashtbl.fold (fun k v acc -> (jstr k ^ ":" ^ string_of_int v) :: acc) fail_kinds []) in
-    Printf.printf "{\"rid\":%s,\"status\":%s,\"inctx\":%d,\"sol\":%d,\"bot\":%d,\"undecided\":%d,\"treesol\":%d,\"nfail\":%d,\"kinds\":{%s},\"fails\":[%s],\"status_fail\":%s,\"all_fail_zero_param\":%b,\"ref_sol_nonzero\":%d,\"malformed\":[%s],\"nodes\":%d,\"arts\":%d,\"maxval\":%s,\"relax\":%s,\"big_nonaffine\":%b,\"certified\":%s}\n"
+    Printf.printf "{\"rid\":%s,\"status\":%s,\"inctx\":%d,\"sol\":%d,\"bot\":%d,\"undecided\":%d,\"treesol\":%d,\"nfail\":%d,\"kinds\":{%s},\"fails\":[%s],\"status_fail\":%s,\"all_fail_zero_param\":%b,\"ref_sol_nonzero\":%d,\"malformed\":[%s],\"nodes\":%d,\"arts\":%d,\"maxval\":%s,\"relax\":%s,\"big_nonaffine\":%b,\"certified\":%s,\"big_in_arts\":%b}\n"
       (jstr rid) (jstr status) !inctx !nsol !nbot !undec !tree_sol !nfail kinds (Buffer.contents fails) (jstr status_fail)
       !all_fail_zero !ref_sol_nonzero
       (String.concat "," (List.map jstr (List.rev !malformed))) (tree_size tree) (tree_arts tree) (string_of_z !maxv)
-      (match relax with Some true -> "\"nonempty\"" | Some false -> "\"empty\"" | None -> "\"?\"") !nonaffine (jstr certified)
+      (match relax with Some true -> "\"nonempty\"" | Some false -> "\"empty\"" | None -> "\"?\"") !nonaffine (jstr certified) (big_in_arts bigi dim tree)
   with
   | Malformed s -> Printf.printf "{\"rid\":%s,\"error\":%s}\n" (jstr rid) (jstr ("malformed record: " ^ s))
   | Stack_overflow -> Printf.printf "{\"rid\":%s,\"error\":\"judge: stack overflow\"}\n" (jstr rid)
